@@ -1,9 +1,9 @@
 package an
 
 import (
+	"fmt"
 	"go/ast"
 	"go/parser"
-	"go/printer"
 	"go/token"
 	"go/types"
 	"os"
@@ -121,26 +121,71 @@ func blanked(n ast.Node, class identClass) (string, []*ast.Ident) {
 		name string
 	}
 	var undo []saved
-	// classify first, rename afterwards (ast.Object.Pos looks the declaring identifier up by name)
+	// classify first (ast.Object.Pos looks the declaring identifier up by name, so nothing is renamed)
+	isLocal := map[*ast.Ident]bool{}
 	ast.Inspect(n, func(m ast.Node) bool {
 		if id, ok := m.(*ast.Ident); ok {
-			if isLocal, _ := class(id); isLocal && id.Name != "_" && !litKey[id] {
+			if l, _ := class(id); l && id.Name != "_" && !litKey[id] {
 				locals = append(locals, id)
+				isLocal[id] = true
 			}
 		}
 		return true
 	})
-	for _, id := range locals {
-		undo = append(undo, saved{id, id.Name})
-		id.Name = "ⱽ"
-	}
+	// a structural rendering: node kinds, operators, literals and names (locals blanked) in source order —
+	// independent of formatting and comments
 	var sb strings.Builder
-	printer.Fprint(&sb, token.NewFileSet(), n)
-	for _, u := range undo {
-		u.id.Name = u.name
-	}
-	// white space and comments do not matter
-	return strings.Join(strings.Fields(sb.String()), " "), locals
+	ast.Inspect(n, func(m ast.Node) bool {
+		if m == nil {
+			sb.WriteString(") ")
+			return true
+		}
+		switch v := m.(type) {
+		case *ast.CommentGroup, *ast.Comment:
+			return false
+		case *ast.Ident:
+			if isLocal[v] {
+				sb.WriteString("(ⱽ ")
+			} else {
+				sb.WriteString("(" + v.Name + " ")
+			}
+		case *ast.BasicLit:
+			sb.WriteString("(" + v.Value + " ")
+		case *ast.BinaryExpr:
+			sb.WriteString("(bin" + v.Op.String() + " ")
+		case *ast.UnaryExpr:
+			sb.WriteString("(un" + v.Op.String() + " ")
+		case *ast.AssignStmt:
+			sb.WriteString("(as" + v.Tok.String() + " ")
+		case *ast.IncDecStmt:
+			sb.WriteString("(" + v.Tok.String() + " ")
+		case *ast.BranchStmt:
+			sb.WriteString("(br" + v.Tok.String() + " ")
+		case *ast.RangeStmt:
+			sb.WriteString("(range" + v.Tok.String() + " ")
+		case *ast.GenDecl:
+			sb.WriteString("(decl" + v.Tok.String() + " ")
+		case *ast.CallExpr:
+			if v.Ellipsis.IsValid() {
+				sb.WriteString("(call... ")
+			} else {
+				sb.WriteString("(call ")
+			}
+		case *ast.ChanType:
+			sb.WriteString(fmt.Sprintf("(chan%d ", v.Dir))
+		case *ast.SliceExpr:
+			if v.Slice3 {
+				sb.WriteString("(slice3 ")
+			} else {
+				sb.WriteString("(slice ")
+			}
+		default:
+			sb.WriteString(fmt.Sprintf("(%T ", m))
+		}
+		return true
+	})
+	_ = undo
+	return sb.String(), locals
 }
 
 // alignRoles assigns role names (SetRole) to the locals of the analysed functions from the snapshot.
@@ -155,6 +200,9 @@ func (p *Prog) alignRoles() {
 	if len(ref) == 0 {
 		return
 	}
+	p.alignFields()
+	matchedRef := map[*ast.FuncDecl]bool{}
+	var orphans []*Fn // functions without a snapshot counterpart of the same name
 	for _, f := range p.Fns {
 		if f.Decl == nil || f.Body == nil {
 			continue
@@ -165,10 +213,107 @@ func (p *Prog) alignRoles() {
 			continue
 		}
 		cands := ref[declKey(rel, f.Decl)]
-		if len(cands) != 1 {
-			continue // renamed or moved function, or several init functions: no alignment
+		if len(cands) == 0 {
+			orphans = append(orphans, f)
+			continue
 		}
+		if len(cands) != 1 {
+			continue // several init functions: no alignment
+		}
+		matchedRef[cands[0].decl] = true
 		p.alignFn(f, cands[0].decl)
+	}
+	// A function that has no namesake in the snapshot but is, up to the names of locals and its own name,
+	// identical to a snapshot function that in turn has no namesake in the analysed tree was merely renamed
+	// (or moved to another file): it keeps its snapshot name for the rules.
+	if len(orphans) == 0 {
+		return
+	}
+	type refOrphan struct {
+		key  string
+		decl *ast.FuncDecl
+	}
+	var refOrphans []refOrphan
+	curKeys := map[string]bool{}
+	for _, f := range p.Fns {
+		if f.Decl != nil {
+			file := p.Fset.Position(f.Decl.Pos()).Filename
+			if rel, err := filepath.Rel(p.Dir, file); err == nil {
+				curKeys[declKey(rel, f.Decl)] = true
+			}
+		}
+	}
+	for k, rs := range ref {
+		if !curKeys[k] {
+			for _, r := range rs {
+				refOrphans = append(refOrphans, refOrphan{k, r.decl})
+			}
+		}
+	}
+	shapeOf := func(fd *ast.FuncDecl, class identClass) string {
+		saved := fd.Name.Name
+		fd.Name.Name = "ƒ"
+		s, _ := blanked(fd, class)
+		fd.Name.Name = saved
+		return s
+	}
+	for _, f := range orphans {
+		if f.Obj == nil || f.Obj.Exported() {
+			continue
+		}
+		info := f.Info()
+		curClass := func(id *ast.Ident) (bool, interface{}) {
+			v, ok := ObjOf(info, id).(*types.Var)
+			if !ok || v.IsField() || v.Pkg() == nil || v.Parent() == nil || v.Parent() == v.Pkg().Scope() || v.Pos() < f.Decl.Pos() || v.Pos() >= f.Decl.End() {
+				return false, nil
+			}
+			return true, v
+		}
+		cs := shapeOf(f.Decl, curClass)
+		var match *ast.FuncDecl
+		n := 0
+		for _, ro := range refOrphans {
+			rd := ro.decl
+			if recvBase(rd) != recvBase(f.Decl) {
+				continue
+			}
+			refClass := func(id *ast.Ident) (bool, interface{}) { return refLocal(rd, id), nil }
+			// recursive calls mention the function's own name: compare with both names blanked
+			rs := strings.ReplaceAll(shapeOf(rd, refClass), "("+rd.Name.Name+" ", "(ƒ ")
+			if strings.ReplaceAll(cs, "("+f.Decl.Name.Name+" ", "(ƒ ") == rs {
+				match = rd
+				n++
+			} else if os.Getenv("JETVERIF_DEBUG_ALIGN") == f.Name {
+				a, b := strings.Fields(strings.ReplaceAll(cs, "("+f.Decl.Name.Name+" ", "(ƒ ")), strings.Fields(rs)
+				for i := 0; i < len(a) && i < len(b); i++ {
+					if a[i] != b[i] {
+						lo := i - 6
+						if lo < 0 {
+							lo = 0
+						}
+						println("ORPHAN", rd.Name.Name, "mismatch:", strings.Join(a[lo:i+3], " "), "<<>>", strings.Join(b[lo:i+3], " "))
+						break
+					}
+				}
+			}
+		}
+		if n != 1 {
+			continue
+		}
+		old := match.Name.Name
+		funcAlias.Store(f.Obj, old)
+		oldName := f.Name
+		f.DeclName = oldName
+		f.Name = strings.Replace(oldName, f.Decl.Name.Name, old, 1)
+		p.FnByName[f.Name] = f
+		for _, l := range f.Lits {
+			if strings.HasPrefix(l.Name, oldName+"$") {
+				delete(p.FnByName, l.Name)
+				l.Name = f.Name + strings.TrimPrefix(l.Name, oldName)
+				p.FnByName[l.Name] = l
+			}
+		}
+		p.alignFn(f, match)
 	}
 }
 
@@ -329,6 +474,105 @@ func (p *Prog) alignFn(f *Fn, rd *ast.FuncDecl) {
 			// only variables *defined* by this statement (not re-used on the left of :=)
 			if isLocal, _ := curClass(cid); isLocal && info.Defs[cid] != nil {
 				assign(cid, rdefs[0].ids[i].Name)
+			}
+		}
+	}
+}
+
+// alignFields: an unexported struct field that was merely renamed (same struct, same position, same type
+// expression, same number of fields) keeps its snapshot name for the rules — FieldKey, selector names and
+// rendered expressions all see the snapshot name.
+func (p *Prog) alignFields() {
+	type refStruct struct{ st *ast.StructType }
+	refTypes := map[string]*ast.StructType{} // "dir|TypeName"
+	fset := token.NewFileSet()
+	filepath.Walk(ReferenceDir, func(path string, fi os.FileInfo, err error) error {
+		if err != nil || fi.IsDir() || !strings.HasSuffix(path, ".go") || strings.HasSuffix(path, "_test.go") {
+			return nil
+		}
+		f, perr := parser.ParseFile(fset, path, nil, parser.SkipObjectResolution)
+		if perr != nil {
+			return nil
+		}
+		rel, _ := filepath.Rel(ReferenceDir, path)
+		for _, d := range f.Decls {
+			gd, ok := d.(*ast.GenDecl)
+			if !ok || gd.Tok != token.TYPE {
+				continue
+			}
+			for _, sp := range gd.Specs {
+				ts := sp.(*ast.TypeSpec)
+				if st, ok := ts.Type.(*ast.StructType); ok {
+					refTypes[filepath.Dir(rel)+"|"+ts.Name.Name] = st
+				}
+			}
+		}
+		return nil
+	})
+	flat := func(st *ast.StructType) (names []*ast.Ident, types_ []string) {
+		for _, fl := range st.Fields.List {
+			t := Str(fl.Type)
+			if len(fl.Names) == 0 {
+				names = append(names, nil) // embedded
+				types_ = append(types_, t)
+				continue
+			}
+			for _, n := range fl.Names {
+				names = append(names, n)
+				types_ = append(types_, t)
+			}
+		}
+		return
+	}
+	for _, pk := range p.Pkgs {
+		for i, file := range pk.Syntax {
+			if i >= len(pk.CompiledGoFiles) {
+				continue
+			}
+			rel, err := filepath.Rel(p.Dir, pk.CompiledGoFiles[i])
+			if err != nil {
+				continue
+			}
+			for _, d := range file.Decls {
+				gd, ok := d.(*ast.GenDecl)
+				if !ok || gd.Tok != token.TYPE {
+					continue
+				}
+				for _, sp := range gd.Specs {
+					ts := sp.(*ast.TypeSpec)
+					st, ok := ts.Type.(*ast.StructType)
+					if !ok {
+						continue
+					}
+					rst := refTypes[filepath.Dir(rel)+"|"+ts.Name.Name]
+					if rst == nil {
+						continue
+					}
+					cn, ct := flat(st)
+					rn, rt := flat(rst)
+					if len(cn) != len(rn) {
+						continue
+					}
+					same := true
+					for k := range ct {
+						if ct[k] != rt[k] || (cn[k] == nil) != (rn[k] == nil) {
+							same = false
+						}
+					}
+					if !same {
+						continue
+					}
+					for k := range cn {
+						if cn[k] == nil || cn[k].Name == rn[k].Name || ast.IsExported(cn[k].Name) {
+							continue
+						}
+						if o := pk.TypesInfo.Defs[cn[k]]; o != nil {
+							for _, f2 := range pk.Syntax {
+								SetRole(pk.TypesInfo, f2, o, rn[k].Name)
+							}
+						}
+					}
+				}
 			}
 		}
 	}
